@@ -2,7 +2,7 @@
 # confirm_seed.sh <name> : confirm a seeded change from /tmp/seeded-out/<name> in a scratch worktree
 # and store it under /verif/seeded/<name>/ with the confirmation log.
 name=$1
-src=/tmp/seeded-out/$name
+src=${SRC:-/tmp/seeded-out}/$name
 wt=/tmp/cs-$name
 out=/verif/seeded/$name
 export GOFLAGS=-mod=mod GOPROXY=off
